@@ -17,6 +17,7 @@ type customLeaf struct {
 	Fallible  bool
 	OnlyStruct bool // needs output format struct
 	MethodLines []string
+	SkipCopy    bool
 }
 
 func customLeaves(fallible bool) []customLeaf {
@@ -97,6 +98,21 @@ func customLeaves(fallible bool) []customLeaf {
 			Custom:    map[string]string{"string→string": "PFXExt"},
 		},
 		{
+			// a custom function for identical source and target types wins over skipCopySameType at every position
+			Name:      "extend_same_basic_skipcopy",
+			Shape:     shape{Src: "string", Tgt: "string", Name: "extstrskip", Decls: []string{fmt.Sprintf("func PFXExt(a string) %s { %s }", errRes("string"), ret(`""`))}},
+			ConvLines: []string{"extend PFXExt", "skipCopySameType"},
+			Custom:    map[string]string{"string→string": "PFXExt"},
+			SkipCopy:  true,
+		},
+		{
+			Name:      "extend_same_struct_skipcopy",
+			Shape:     shape{Src: "PFXV", Tgt: "PFXV", Name: "extvskip", Decls: []string{"type PFXV struct{ N int }\n" + fmt.Sprintf("func PFXExt(a PFXV) %s { %s }", errRes("PFXV"), ret("a"))}},
+			ConvLines: []string{"extend PFXExt", "skipCopySameType"},
+			Custom:    map[string]string{"PFXV→PFXV": "PFXExt"},
+			SkipCopy:  true,
+		},
+		{
 			Name:      "extend_struct",
 			Shape:     shape{Src: "PFXIn", Tgt: "PFXOut", Name: "extstruct", Decls: []string{"type PFXIn struct{ V int }\ntype PFXOut struct{ W string }\n" + fmt.Sprintf("func PFXExt(a PFXIn) %s { %s }", errRes("PFXOut"), ret("PFXOut{}"))}},
 			ConvLines: []string{"extend PFXExt"},
@@ -116,7 +132,7 @@ func customLeaves(fallible bool) []customLeaf {
 }
 
 func customConv(family string, cl customLeaf, s shape, format string, n int, wrap string) *Conv {
-	spec := &Spec{Custom: map[string]string{}}
+	spec := &Spec{Custom: map[string]string{}, SkipCopy: cl.SkipCopy}
 	for a, b := range cl.Custom {
 		spec.Custom[a] = b
 	}
@@ -342,6 +358,17 @@ func fieldFuncConvs(family string, fallible bool) []*Conv {
 			"Age":   {Ignore: true},
 			"Last2": {Path: []string{"First"}, Fn: "PFXLast"},
 		}))
+	// map F | FUNC applies to the configured field only, not to equally named fields of nested unnamed structs
+	for _, f := range []string{"struct", "function", "variable"} {
+		d := "type PFXIn struct {\n\tFirst string\n\tMeta struct{ First string }\n\tTags []struct{ First string }\n\tPM *struct{ First string }\n}\ntype PFXOut struct {\n\tFirst string\n\tMeta struct{ First string }\n\tTags []struct{ First string }\n\tPM *struct{ First string }\n}\n" +
+			fmt.Sprintf("func PFXLast(s string) %s { %s }\n", errRes("string"), ret(`""`))
+		out = append(out, &Conv{
+			ID: family + "/fieldfunc/noleak_unnamed/" + f, Family: family, Format: f,
+			Params: "source PFXIn", Results: res, Decls: d,
+			MethodLines: []string{"map First | PFXLast"},
+			Spec:        &Spec{Pairs: map[string]*PairSpec{"PFXIn→PFXOut": {Fields: map[string]*FieldSpec{"First": {Path: []string{"First"}, Fn: "PFXLast"}}}}},
+		})
+	}
 	// pointer-source method, self-referential struct, a *S field mapped through a function taking *S
 	for _, f := range []string{"struct", "function", "variable"} {
 		selfDecl := "type PFXEmp struct {\n\tName string\n\tManager *PFXEmp\n}\ntype PFXCard struct {\n\tName string\n\tManagerName string\n}\n" +
@@ -484,6 +511,56 @@ func FamilySibling(thorough bool) []*Conv {
 			ExtraMethods: "\t// goverter:" + setting + "\n\tAPFXFirst(source PFXO1) PFXO1T\n",
 			ExpectFail:   true, FailNote: "a sibling method's " + setting + " leaked into the shared sub-method", Spec: &Spec{},
 		})
+	}
+	return out
+}
+
+// FamilySiblingSkip: skipCopySameType written on one method only (C12 precedence, C04 sharing).
+func FamilySiblingSkip(thorough bool) []*Conv {
+	var out []*Conv
+	inner := "type PFXA int\ntype PFXB int\n" +
+		"type PFXIn struct {\n\tTags []string\n\tP *int\n\tM map[string]int\n\tN PFXA\n}\ntype PFXInT struct {\n\tTags []string\n\tP *int\n\tM map[string]int\n\tN PFXB\n}\n" +
+		"type PFXO1 struct {\n\tInner PFXIn\n\tX int\n}\ntype PFXO1T struct {\n\tInner PFXInT\n\tX int\n}\n" +
+		"type PFXO2 struct {\n\tInner PFXIn\n\tL []PFXIn\n\tOwn []int\n}\ntype PFXO2T struct {\n\tInner PFXInT\n\tL []PFXInT\n\tOwn []int\n}\n"
+	sib := func(f string, lines ...string) string {
+		var sb strings.Builder
+		for _, l := range lines {
+			sb.WriteString("\t// goverter:" + l + "\n")
+		}
+		if f == "variable" {
+			sb.WriteString("\tAPFXFirst func(source PFXO1) PFXO1T\n")
+		} else {
+			sb.WriteString("\tAPFXFirst(source PFXO1) PFXO1T\n")
+		}
+		return sb.String()
+	}
+	for _, f := range []string{"struct", "function", "variable"} {
+		// a sibling that sorts first enables the setting: the method under test still deep-copies, also through
+		// the sub-method both share
+		out = append(out, &Conv{ID: "siblingskip/sibling_enables/" + f, Family: "siblingskip", Format: f,
+			Params: "source PFXO2", Results: "PFXO2T", Decls: inner, ExtraMethods: sib(f, "skipCopySameType"), Spec: &Spec{}, Solo: true})
+		// the converter enables it, a sibling switches it off: the method under test passes identical types through
+		out = append(out, &Conv{ID: "siblingskip/sibling_disables/" + f, Family: "siblingskip", Format: f,
+			Params: "source PFXO2", Results: "PFXO2T", Decls: inner, ConvLines: []string{"skipCopySameType"}, ExtraMethods: sib(f, "skipCopySameType no"), Spec: &Spec{SkipCopy: true}, Solo: true})
+		// written on the method only: in effect at every position of that method, below differing containers too
+		item := "type PFXKey string\ntype PFXItem struct {\n\tP *int\n\tL []int\n}\ntype PFXList []PFXItem\n"
+		for _, sh := range []struct{ name, src, tgt string }{
+			{"map_key_differs", "map[string]PFXItem", "map[PFXKey]PFXItem"},
+			{"named_slice", "[]PFXItem", "PFXList"},
+			{"ptr_to_value", "PFXItem", "*PFXItem"},
+			{"struct_fields", "PFXW1", "PFXW2"},
+		} {
+			d := item
+			if sh.name == "struct_fields" {
+				d += "type PFXW1 struct {\n\tOne PFXItem\n\tMany map[string]PFXItem\n\tQ *PFXItem\n}\ntype PFXW2 struct {\n\tOne PFXItem\n\tMany map[PFXKey]PFXItem\n\tQ *PFXItem\n}\n"
+			}
+			out = append(out, &Conv{ID: "siblingskip/method_only_" + sh.name + "/" + f, Family: "siblingskip", Format: f,
+				Params: "source " + sh.src, Results: sh.tgt, Decls: d, MethodLines: []string{"skipCopySameType"}, Spec: &Spec{SkipCopy: true}, Solo: true})
+		}
+		// the converter enables it, the method under test switches it off for its own positions
+		flat := "type PFXF1 struct {\n\tTags []string\n\tP *int\n\tM map[string]int\n\tN PFXA\n}\ntype PFXF2 struct {\n\tTags []string\n\tP *int\n\tM map[string]int\n\tN PFXB\n}\ntype PFXA int\ntype PFXB int\n"
+		out = append(out, &Conv{ID: "siblingskip/method_disables/" + f, Family: "siblingskip", Format: f,
+			Params: "source PFXF1", Results: "PFXF2", Decls: flat, ConvLines: []string{"skipCopySameType"}, MethodLines: []string{"skipCopySameType no"}, Spec: &Spec{}, Solo: true})
 	}
 	return out
 }
